@@ -123,7 +123,7 @@ impl<P: PType> Sut for PrefixSet<P> {
             K::Retain => {
                 let before = model.entries();
                 let mut calls: Vec<Obs> = vec![];
-                let keep = |o: &Obs| -> bool { uni.key_id(norm((o.0, o.1))).map(|id| (op.arg >> id) & 1 == 1).unwrap_or(true) };
+                let keep = |o: &Obs| -> bool { uni.key_id(norm((o.0, o.1))).map(|id| op.arg.checked_shr(id as u32).map(|x| x & 1 == 1).unwrap_or(false)).unwrap_or(true) };
                 self.retain(|p| {
                     let o = set_obs(p);
                     calls.push(o);
